@@ -22,22 +22,40 @@ VERIFICATION_FAILURES = [
     "possible bit shift underflow/overflow", "decreases not satisfied", "index out of bounds",
     "assertion failed", "possible arithmetic underflow", "possible arithmetic overflow",
     "loop ensures not satisfied", "invariant not satisfied", "unable to prove", "failed this postcondition",
-    "cannot show invariant holds", "termination", "might not be allowed at this call-site",
+    "cannot show invariant holds", "termination", "might not be allowed at this call-site", "precondition not met",
 ]
 TOOL_LIMIT = ["rlimit", "resource limit", "timed out", "solver"]
 
 
 def _enclosing_fn(text_lines, line_no):
+    """name of the function containing generated line `line_no`; methods are qualified by their impl
+    target / trait (`usize::ignore`, `[usize]::max_len`, `NumberTracker::consume_next`)"""
+    def strip(l):
+        return l.split("//")[0]
     for i in range(min(line_no, len(text_lines)) - 1, -1, -1):
-        m = re.search(r"\bfn\s+(\w+)", text_lines[i])
-        if m and not text_lines[i].lstrip().startswith("//"):
-            return m.group(1)
+        m = re.search(r"\bfn\s+(\w+)", strip(text_lines[i]))
+        if m:
+            name = m.group(1)
+            depth = 0
+            for j in range(i - 1, -1, -1):
+                lj = strip(text_lines[j])
+                depth += lj.count("}") - lj.count("{")
+                if depth < 0:
+                    # line j opens the block that contains the function
+                    mi = re.match(r"^\s*impl\b.*\bfor\s+(.+?)\s*\{", lj)
+                    mt = re.match(r"^\s*(?:pub\s+)?trait\s+(\w+)", lj)
+                    if mi:
+                        return "%s::%s" % (mi.group(1).strip(), name)
+                    if mt:
+                        return "%s::%s" % (mt.group(1), name)
+                    return name
+            return name
     return "?"
 
 
 def _run_verus(path, extra=()):
     cmd = ["verus", os.path.basename(path), "--output-json", "--time", "--triggers-mode", "silent",
-           "--error-format=json", "--num-threads", "8"] + list(extra)
+           "--error-format=json", "--num-threads", "8", "--multiple-errors", "8"] + list(extra)
     rc, out, err, dt = run(cmd, cwd=os.path.dirname(path), timeout=VERUS_TIMEOUT_S)
     try:
         j = json.loads(out)
@@ -54,7 +72,7 @@ def _run_verus(path, extra=()):
     return rc, j, diags, err, dt
 
 
-def _classify(diags, gen_lines):
+def _classify(diags, gen_lines, unit_file="u123.rs"):
     failures, problems = [], []
     for d in diags:
         if d.get("level") != "error":
@@ -62,13 +80,32 @@ def _classify(diags, gen_lines):
         msg = d.get("message", "")
         if msg.startswith("aborting due to"):
             continue
-        prim = [s for s in d.get("spans", []) if s.get("is_primary")]
-        labels = [s for s in d.get("spans", []) if not s.get("is_primary")]
+        spans = []
+        for sp in d.get("spans", []):
+            # a span inside a macro expansion (assert!, debug_assert!) is mapped to its call site
+            cur = sp
+            hops = 0
+            while cur and os.path.basename(cur.get("file_name", "")) != unit_file and cur.get("expansion") and hops < 8:
+                nxt = dict(cur["expansion"].get("span") or {})
+                nxt.setdefault("is_primary", cur.get("is_primary"))
+                nxt["is_primary"] = cur.get("is_primary")
+                nxt.setdefault("label", cur.get("label"))
+                cur = nxt
+                hops += 1
+            spans.append(cur or sp)
+        own = [x for x in spans if os.path.basename(x.get("file_name", "")) == unit_file]
+        prim = [x for x in own if x.get("is_primary")] or own[:1]
+        labels = [x for x in own if x not in prim]
+        other = [x for x in spans if x not in own]
         line = prim[0]["line_start"] if prim else 0
         ptext = prim[0]["text"][0]["text"].strip() if prim and prim[0].get("text") else ""
         ltext = labels[0]["text"][0]["text"].strip() if labels and labels[0].get("text") else ""
         lline = labels[0]["line_start"] if labels else 0
-        entry = {"message": msg, "function": _enclosing_fn(gen_lines, line), "line": line, "at": ptext,
+        if not ltext and other:
+            ltext = "%s (%s:%s)" % (other[0].get("label") or "clause of a library contract", other[0].get("file_name"), other[0].get("line_start"))
+        body_span = [x for x in labels if "end of the function body" in (x.get("label") or "")]
+        fn_line = body_span[0]["line_start"] if body_span else line
+        entry = {"message": msg, "function": _enclosing_fn(gen_lines, fn_line), "line": line, "at": ptext,
                  "clause": ltext, "clause_line": lline, "label": labels[0].get("label") if labels else None,
                  "rendered": d.get("rendered", "")[:1500]}
         low = msg.lower()
@@ -118,7 +155,7 @@ def run_unit(unit, canaries=True):
     if j is None:
         raise Undecided("verus unit %s: no JSON result (rc=%s): %s" % (unit, rc, err[-800:]))
     vr = j.get("verification-results", {})
-    failures, problems = _classify(diags, gen_lines)
+    failures, problems = _classify(diags, gen_lines, os.path.basename(path))
     if vr.get("encountered-vir-error") or problems or (rc != 0 and not failures):
         why = "; ".join("%s @ %s:%d `%s`" % (p["message"], unit, p["line"], p["at"]) for p in problems) or err[-800:]
         raise Undecided("verus unit %s: not a verification verdict (unsupported construct, hint no longer type-checks, or tool limit): %s" % (unit, why))
@@ -147,7 +184,7 @@ def run_unit(unit, canaries=True):
             with open(cpath, "w") as fh:
                 fh.write(ctext)
             crc, cj, cdiags, cerr, _ = _run_verus(cpath)
-            cf, cp = _classify(cdiags, ctext.split("\n"))
+            cf, cp = _classify(cdiags, ctext.split("\n"), os.path.basename(cpath))
             rejected = crc != 0 and any("postcondition" in x["message"] for x in cf)
             try:
                 os.remove(cpath)
